@@ -321,6 +321,20 @@ func Run(checkerDir string) ([]Result, error) {
 		}
 		add("normaliser plans and type-checks", okPlan, detail)
 	}
+	// a value tested twice across a short-circuit: the second arm of `case nf && ctl: … case nf:` knows ctl is false
+	{
+		f := fn("RetestedSwitch")
+		var ctl ssa.Value
+		for _, p := range f.Params {
+			if p.Name() == "ctl" {
+				ctl = p
+			}
+		}
+		gates := cfgx.ErrEvents(call(f, ").Create", 0)).OK
+		okPlain, _ := cfgx.MustCross(call(f, ").Delete", 0), gates, nil)
+		okS, _ := cfgx.MustCrossOrKnow(call(f, ").Delete", 0), gates, ctl, false, nil)
+		add("re-tested value across a short-circuit", ctl != nil && !okPlain && okS, "the second arm is reached only with ctl == false (learnt from the and-combined test it failed), although no edge tests ctl alone")
+	}
 	// self-carry
 	{
 		f := fn("SelfCarry")
